@@ -5,6 +5,7 @@ import (
 	"bufio"
 	"encoding/json"
 	"fmt"
+	"math/rand"
 	"os"
 	"path/filepath"
 	"sort"
@@ -26,6 +27,7 @@ type Out struct {
 	Samples  map[string][]string
 	Fails    []GoFail
 	Distinct map[string]map[string]bool
+	R        *rand.Rand // the run's PRNG, for oracles that need more random choices
 }
 
 func New(dir string) *Out {
